@@ -28,6 +28,24 @@ def handle (line : String) : String :=
       match valOfSexp v with
       | some v => "ok " ++ hexOfBytes (enc v)
       | none => "bad-op"
+    | "rt", [t, v] =>
+      match tyOfSexp t, valOfSexp v with
+      | some t, some v => if hasTy v t then "ok " ++ hexOfBytes (enc v) else "ill-typed"
+      | _, _ => "bad-op"
+    | "serann", (.atom _kind :: .atom n :: vs) =>
+      -- serialize_seq / serialize_map with an announced length (serializer.rs): unknown → error,
+      -- known → varint(usize) of the ANNOUNCED length, then whatever elements are written
+      match valsOfSexp vs with
+      | some vs =>
+        if n == "none" then "err " ++ Err.seqLengthUnknown.name
+        else match n.toNat? with
+          | some n => "ok " ++ hexOfBytes (Spec.varint n ++ Spec.encodeAll vs)
+          | none => "bad-op"
+      | none => "bad-op"
+    | "collect", chunks =>
+      match chunks.mapM (fun c => match c with | .atom h => bytesOfHex h | _ => none) with
+      | some cs => "ok " ++ hexOfBytes (Spec.encode (.str cs.flatten))
+      | none => "bad-op"
     | "spec", [v] =>
       match valOfSexp v with
       | some v => "ok " ++ hexOfBytes (Spec.encode v)
